@@ -2,26 +2,29 @@
   CmdSolver.lean — driver command for the time-reversed solver model.
 -/
 import GraphiqModel.Model.Solver
+import GraphiqModel.Model.Check
 import Driver.Proto
 import Driver.CmdStab
 namespace Graphiq.CmdSolver
 open Graphiq Graphiq.Proto Graphiq.Solver
 
-def regName (np q : Nat) : String := if q < np then s!"p{q}" else s!"e{q - np}"
+def regName (q : QReg) : String := match q.ty with | .p => s!"p{q.idx}" | .e => s!"e{q.idx}"
 
-def tok (np : Nat) : SOp → String
-  | .wrap gs q => s!"W:{String.intercalate "." (gs.map Cliff.Gen.name)}:{regName np q}"
-  | .emit e p => s!"CX:e{e}:p{p}"
-  | .cnotEE c t => s!"CX:e{c}:e{t}"
-  | .mcr e p => s!"MCR:e{e}:p{p}:c0"
+/-- token of a circuit operation in the syntax `circ.check` / `circ.stab` read (only the kinds the solver emits) -/
+def tokC : COp → String
+  | .wrap gs q => s!"W:{String.intercalate "." (gs.map Cliff.Gen.name)}:{regName q}"
+  | .cnot c t => s!"CX:{regName c}:{regName t}"
+  | .mcr c t r => s!"MCR:{regName c}:{regName t}:c{r}"
+  | _ => "?"
 
-/-- solver.trs n= x= z= r=  (target stabilizer tableau) -/
+/-- solver.trs n= x= z= r=  (target stabilizer tableau); `zero` = the final working tableau generates the group of |0…0⟩, the hypothesis `hfinal` of
+    `C02.solve_sound`, evaluated on every input -/
 def trs (a : Args) : String :=
   match solve (CmdStab.stabOf a) with
   | .error e => s!"err {e}"
   | .ok s =>
-    let toks := s.circ.map (tok s.np)
-    s!"ok ne={s.ne} np={s.np} ops={if toks.isEmpty then "-" else String.intercalate "," toks}"
+    let toks := s.cops.map tokC
+    s!"ok ne={s.ne} np={s.np} zero={b01 (s.t.sameGroup (STab.zero (s.np + s.ne)))} ops={if toks.isEmpty then "-" else String.intercalate "," toks}"
 
 def dispatch (cmd : String) (a : Args) : Option String :=
   match cmd with
